@@ -19,6 +19,7 @@ EXPLANATION = (
     "true exactly for loop bodies, false for function bodies and inherited everywhere else; break/continue test "
     "!ctx.inside_loop and return Err; (START) resolve() errors when the main module has no global `start`, solve() "
     "unifies it with fn -> void and has an error arm for a missing start."
+    " (START agreement) the resolver accepts only a variable defined in the main file as `start`, and the checker and the lowering look for exactly that variable; (BINDER-TYPED) `self` of a blob literal has the instance's type, so field accesses through it are checked."
 )
 UNDECIDED = "nothing about run-time shapes (that is C02); error wording."
 
